@@ -40,7 +40,7 @@ def _embs(ctx):
 
 
 BOUNDS = {
-    "quick": "contents: multisets of <=2 events; coarse(1 s): starts 0..5 x durs {0,1,2,3}, windows over -1..7 U {open}, limits {-1,0,1,2,5}; fine(1 ms): starts 0..3 x durs {0,1,2}, windows -3..6 with 4 sub-ms edge shifts; day(6 h from 18:00): starts 0..4 x durs {0,6h,24h}; carry(1 ms lattice from xx.996 s across the second boundary); every window also via get_eventcount; window arguments cycle through UTC/+05:30/-08:00",
+    "quick": "contents: multisets of <=2 events, each built by inserts and (coarse/fine) also through replace-by-id in reversed order; coarse(1 s): starts 0..5 x durs {0,1,2,3}, windows over -1..7 U {open}, limits {-1,0,1,2,5}; fine(1 ms): starts 0..3 x durs {0,1,2}, windows -3..6 with 4 sub-ms edge shifts; day(6 h from 18:00): starts 0..4 x durs {0,6h,24h}; carry(1 ms lattice from xx.996 s across the second boundary); every window also via get_eventcount; window arguments cycle through UTC/+05:30/-08:00",
     "thorough": "as quick with multisets of <=3 events, more limits and shifts, and a 3 ms embedding",
 }
 RULE = (
@@ -146,18 +146,29 @@ def _nontrivial(stored, a, b):
     return False
 
 
-def run_content(ds, backend, embd, content, u, bid="w"):
+def run_content(ds, backend, embd, content, u, bid="w", via_replace=False):
+    """via_replace: the same bucket content is reached through replace-by-id (events are first
+    inserted with the instants of the REVERSED content, then each is rewritten to its final value),
+    so that storage order and timestamp order differ -- a read must not depend on how the content
+    came about (a seeded 'keep the list sorted on insert, never re-sort' change only showed after a replace)"""
     emb = Emb(embd["base"], embd["unit_us"])
     if bid in ds.buckets():
         ds.delete_bucket(bid)
     S.mk_bucket(ds, bid)
     b = ds[bid]
     stored = {}
+    ids = []
     for n, (s, d) in enumerate(content):
-        e = b.insert(emb.ev(s, d, {"n": n}))
-        i = e.id
+        if via_replace:
+            s0, d0 = content[len(content) - 1 - n]
+            ids.append(b.insert(emb.ev(s0, d0, {"n": -1})).id)
+        else:
+            ids.append(b.insert(emb.ev(s, d, {"n": n})).id)
+    for n, (s, d) in enumerate(content):
+        if via_replace:  # all placeholders are in place before the first one is rewritten
+            b.replace(ids[n], emb.ev(s, d, {"n": n}))
         ee = emb.ev(s, d, {"n": n})
-        stored[i] = (S.us_of(ee.timestamp), S.us_of(ee.timestamp) + S.dus_of(ee.duration), S.canon_data(ee.data))
+        stored[ids[n]] = (S.us_of(ee.timestamp), S.us_of(ee.timestamp) + S.dus_of(ee.duration), S.canon_data(ee.data))
     base = {t[0]: (t[1], t[1] + t[2], t[3]) for t in S.dump_bucket(ds, bid)}
     if base != stored or len(stored) != len(content):
         # an unbounded read (no start, no end, no limit) is a window read too: it must return
@@ -181,7 +192,7 @@ def run_content(ds, backend, embd, content, u, bid="w"):
             tz = TZS[wi % 3]
             xa = None if ta is None else ta.astimezone(tz)
             xb = None if tb is None else tb.astimezone(tz)
-            case = {"backend": backend, "emb": embd["name"], "unit_us": embd["unit_us"], "base": embd["base"].isoformat(), "content": [list(c) for c in content], "window": [a, bb], "shift_us": [sa, sb], "tz": wi % 3}
+            case = {"backend": backend, "emb": embd["name"], "unit_us": embd["unit_us"], "base": embd["base"].isoformat(), "content": [list(c) for c in content], "window": [a, bb], "shift_us": [sa, sb], "tz": wi % 3, "via_replace": via_replace}
             nt = _nontrivial(stored, ua, ub)
             if nt:
                 u.nontrivial += 1
@@ -228,6 +239,9 @@ def _unit(args):
     for content in contents:
         run_content(ds, backend, embd, content, u)
         u.traces += 1
+        if len(content) >= 2 and len(set(content)) > 1 and embd["name"] in ("coarse", "fine"):
+            run_content(ds, backend, embd, content, u, via_replace=True)
+            u.traces += 1
     if contents:
         u.sample({"backend": backend, "embedding": embd["name"], "content": [list(c) for c in contents[-1]], "windows": len(_windows(embd)) * len(embd["shifts"]), "limits": list(embd["limits"])}, cap=1)
     S.close_all()
@@ -267,10 +281,19 @@ def run_case(ctx, case):
     S.mk_bucket(ds, "w")
     b = ds["w"]
     stored = {}
-    for n, (s, d) in enumerate(case["content"]):
-        e = b.insert(emb.ev(s, d, {"n": n}))
+    ids = []
+    cont = [tuple(c) for c in case["content"]]
+    for n, (s, d) in enumerate(cont):
+        if case.get("via_replace"):
+            s0, d0 = cont[len(cont) - 1 - n]
+            ids.append(b.insert(emb.ev(s0, d0, {"n": -1})).id)
+        else:
+            ids.append(b.insert(emb.ev(s, d, {"n": n})).id)
+    for n, (s, d) in enumerate(cont):
+        if case.get("via_replace"):
+            b.replace(ids[n], emb.ev(s, d, {"n": n}))
         ee = emb.ev(s, d, {"n": n})
-        stored[e.id] = (S.us_of(ee.timestamp), S.us_of(ee.timestamp) + S.dus_of(ee.duration), S.canon_data(ee.data))
+        stored[ids[n]] = (S.us_of(ee.timestamp), S.us_of(ee.timestamp) + S.dus_of(ee.duration), S.canon_data(ee.data))
     a, bb = case["window"]
     sa, sb = case["shift_us"]
     ta = None if a is None else emb.t(a) + timedelta(microseconds=sa)
